@@ -218,6 +218,17 @@ func cmdCheck(args []string) int {
 		report(m, "exists", "missing", "?", "function under contract not found in the current tree", "")
 		failed = append(failed, oblRec{m, "exists", "missing", "", "?", "function under contract not found"})
 	}
+	nw, wv := eng.checkWriters(prop)
+	total += nw
+	discharged += nw
+	for _, v := range wv {
+		discharged--
+		if discharged < 0 {
+			discharged = 0
+		}
+		report("static", "writers: "+v, "violated", "?", "field written outside the functions that preserve its invariant", "")
+		failed = append(failed, oblRec{"static", "writers", "violated", "scan", "?", v})
+	}
 	for _, v := range vacuous {
 		total++
 		report("vacuity", v, "vacuous", "?", "a return became unreachable: contradictory assumptions", "")
